@@ -6,6 +6,14 @@
 // the template->task association keys) is compared with a model that follows the
 // responses. Unit Crash (crash_test.go): the Bolt file is copied after every committed
 // transaction of the last request of a history and a new server is opened on every copy.
+//
+// Run-time faults ("feed" steps): points written to POST /kapacitor/v1/write that the
+// combine node of a running "fragile" script refuses, which ends that execution with a
+// node error while the server goes on. A feed is no definition request: the catalogue must
+// be exactly what it was (the last accepted definition, also when the stored definition
+// was patched after the execution was started), the task is enabled, not executing, with
+// the error recorded, and every way of starting it again (enable after disable, rename,
+// template update, restart) brings it back to executing.
 package c14
 
 import (
@@ -31,8 +39,9 @@ type Case struct {
 }
 
 const rule = "rapid: history of <= 20 task/template API requests (create, update of script/dbrps/vars/id/template/status, enable, disable, delete; " +
-	"template create/update/rename/delete with 0-3 tasks created from it; valid and rejected requests) interleaved with clean restarts; " +
-	"non-trivial = an accepted rename or an accepted template update of an enabled task is followed by a restart; distinct by case hash"
+	"template create/update/rename/delete with 0-3 tasks created from it; valid and rejected requests) interleaved with clean restarts and with " +
+	"run-time faults (points written to /kapacitor/v1/write that end the running execution of a task with a node error, also after the stored definition was patched); " +
+	"non-trivial = an accepted rename or an accepted template update of an enabled task, or a run-time failure of an execution whose task was patched since its start, is followed by a restart; distinct by case hash"
 
 // ---------------------------------------------------------------- API <-> plain data
 
@@ -159,7 +168,11 @@ const (
 	sStreamD = "dbrp \"dbx\".\"rpx\"\nstream|from().measurement('m2')|log()"
 	sBatchDB = "batch|query('SELECT v FROM \"db\".\"rp\".\"m\"').period(10s).every(1h)|log()"
 	sBatchOt = "batch|query('SELECT v FROM \"other\".\"rp\".\"m\"').period(10s).every(1h)|log()"
-	sBadMeth = "stream|from().measurement('m0')|nope()"
+	// fragile scripts: their execution ends with a node error when it is fed 3 or more points
+	// with one time (see fragileMark in model_test.go)
+	sFragile  = "stream|from().measurement('boom')|combine(lambda: TRUE, lambda: TRUE).as('a', 'b').max(1)|log()"
+	sFragile2 = "stream|from().measurement('boom')|combine(lambda: TRUE, lambda: TRUE).as('x', 'y').max(1)|log().prefix('F2')"
+	sBadMeth  = "stream|from().measurement('m0')|nope()"
 	sBadSyn  = "stream|from("
 	sNoSrc   = "var x = 1"
 
@@ -169,14 +182,17 @@ const (
 	tWindow  = "var m string\nvar th int\nstream|from().measurement(m)|where(lambda: \"v\" >= th)|window().period(10s).every(10s)|log()"
 	tDBRP    = "dbrp \"dbx\".\"rpx\"\nvar m string\nvar th int\nstream|from().measurement(m)|where(lambda: \"v\" > th)|log()"
 	tBatchOt = "var m string\nvar th int\nbatch|query('SELECT v FROM \"other\".\"rp\".\"m\"').period(10s).every(1h)|where(lambda: \"v\" > th)|log().prefix(m)"
+	tFragile = "var m string\nvar th int\nstream|from().measurement('boom')|combine(lambda: TRUE, lambda: TRUE).as('a', 'b').max(1)|where(lambda: \"a.v\" > th)|log().prefix(m)"
 )
 
 var (
-	plainScripts = []string{sStream0, sStream1, sStreamD, sBatchDB, sBatchOt}
+	plainScripts = []string{sStream0, sStream1, sStreamD, sBatchDB, sBatchOt, sFragile, sFragile2}
 	badScripts   = []string{sBadMeth, sBadSyn, sNoSrc}
-	tmplScripts  = []string{tIntTh, tFloatTh, tExtra, tWindow, tDBRP, tBatchOt}
+	tmplScripts  = []string{tIntTh, tFloatTh, tExtra, tWindow, tDBRP, tBatchOt, tFragile}
 
 	dbrpPool = [][]DBRP{{{"db", "rp"}}, {{"db", "rp"}, {"db2", "rp2"}}, {{"dbz", "rpz"}}}
+	// where a feed can be written to: every db.rp a task of the alphabet can listen on
+	feedPool = []DBRP{{"db", "rp"}, {"db2", "rp2"}, {"dbz", "rpz"}, {"dbx", "rpx"}}
 
 	vInt     = map[string]Var{"m": {"string", "cpu"}, "th": {"int", "3"}}
 	vFloat   = map[string]Var{"m": {"string", "mem"}, "th": {"float", "2.5"}}
@@ -192,6 +208,7 @@ var scriptNames = map[string]string{
 	tIntTh: "<T: var m string, var th int>", tFloatTh: "<T: var m string, var th float>", tExtra: "<T: var m string, var th int, var extra string>",
 	tWindow: "<T: var m string, var th int; window>", tDBRP: "<T: dbrp \"dbx\".\"rpx\" statement; var m string, var th int>",
 	tBatchOt: "<T: batch FROM other.rp; var m string, var th int>",
+	sFragile: "<fragile: combine.max(1)>", sFragile2: "<fragile2: combine.max(1), other names>", tFragile: "<T: fragile combine.max(1); var m string, var th int>",
 }
 
 // scriptName abbreviates the scripts of the generator's alphabet in messages (the case
@@ -352,13 +369,39 @@ const hangBound = 60 * time.Second
 // observeQuiet observes until no enabled async-fail batch task is still on its way down
 // (the goroutine that waits for the task records the error as its last action).
 func observeQuiet(v *srv, getIDs []string, candidates ...*model) (*observed, error) {
+	return observeSettled(v, getIDs, nil, candidates...)
+}
+
+// observeSettled is observeQuiet that also waits for the executions a feed has just brought
+// to an end (dying: task ids): a node error ends the execution asynchronously, the goroutine
+// that waits for it stops the task and records the error as its last action.
+func observeSettled(v *srv, getIDs []string, dying []string, candidates ...*model) (*observed, error) {
 	deadline := time.Now().Add(hangBound)
 	for {
 		o, err := observe(v, getIDs)
 		if err != nil {
+			// the list and the GETs are separate requests: an execution that ends in between
+			// makes them differ in 'executing'
+			if len(dying) > 0 && obsSig(err) == "api/list-get-disagree" && time.Now().Before(deadline) {
+				time.Sleep(200 * time.Microsecond)
+				continue
+			}
 			return nil, err
 		}
 		pending := ""
+		for _, id := range dying {
+			if t, ok := o.tasks[id]; ok && t.Enabled && (t.Executing || t.Error == "") {
+				if time.Now().After(deadline) {
+					return nil, fmt.Errorf("fault-hang: the execution of task %q was fed more points with one time than its combine node accepts (.max(1)), which ends the execution with a node error "+
+						"(taken from combine.go), but %v later the API shows executing=%v error=%q", id, hangBound, t.Executing, t.Error)
+				}
+				pending = id
+			}
+		}
+		if pending != "" {
+			time.Sleep(200 * time.Microsecond)
+			continue
+		}
 		for _, id := range sortedKeys(o.tasks) {
 			t := o.tasks[id]
 			if !t.Enabled || !(t.Executing || t.Error == "") {
@@ -536,6 +579,10 @@ func (r *runner) step(i int, op Op) bool {
 		return true
 	}
 
+	if op.K == "feed" {
+		return r.feed(i, op)
+	}
+
 	pre := r.m
 	post, applicable := pre.apply(op)
 	if r.aroundSend != nil {
@@ -626,7 +673,9 @@ func (r *runner) step(i int, op Op) bool {
 			break
 		}
 		t := r.m.tasks[id]
-		if t.Enabled {
+		if t.Enabled && t.Died {
+			r.label("state: enabled task whose execution ended with a run-time error")
+		} else if t.Enabled {
 			switch t.runClass(o) {
 			case clsSyncFail:
 				r.label("state: enabled task whose start is refused")
@@ -637,6 +686,60 @@ func (r *runner) step(i int, op Op) bool {
 		if t.Tmpl != "" && !t.Assoc {
 			r.label("state: orphaned task")
 		}
+	}
+	return true
+}
+
+// feed writes points to the server (no definition request) and checks that nothing but the
+// running state of the executions it ends has changed.
+func (r *runner) feed(i int, op Op) bool {
+	pre := r.m
+	post, applicable := pre.apply(op)
+	if !applicable {
+		r.fail("harness/feed", "malformed feed %+v", op)
+		return false
+	}
+	dying := pre.hits(op)
+	status, errText := r.v.feed(op, i)
+	r.steps = append(r.steps, fmt.Sprintf("%d: %s => %d %s", i, op, status, errText))
+	if status/100 != 2 {
+		r.fail("harness/feed-not-written", "POST /kapacitor/v1/write of well-formed line protocol was not accepted: %d %s", status, errText)
+		return false
+	}
+	o, err := observeSettled(r.v, dying, dying, pre, post)
+	if err != nil {
+		r.fail(obsSig(err), "after %s: %v", op, err)
+		return false
+	}
+	if !r.quiet {
+		r.label("feed")
+		r.label(fmt.Sprintf("feed: ends %d executions", min(len(dying), 2)))
+	}
+	patched := false
+	for _, id := range dying {
+		if pre.tasks[id].Patched {
+			patched = true
+		}
+	}
+	if patched {
+		r.armed = true
+		if !r.quiet {
+			r.label("feed: ends an execution whose task was patched since its start")
+		}
+	}
+	if d := post.compare(o, !r.apiOnly); d != nil {
+		what := "data written to the server changed the catalogue"
+		if len(dying) > 0 {
+			what = fmt.Sprintf("the run-time failure of the executions of %v changed the catalogue (the API must keep showing the last accepted definition)", dying)
+		}
+		r.fail("run-time-failure/changed-catalogue/"+d.kind, "after %s: %s: %s", op, what, d)
+		return false
+	}
+	r.m = post
+	r.accepted = true
+	if d := r.m.checkExecuting(o); d != nil {
+		r.fail(d.kind+"/feed", "after %s: %s", op, d)
+		return false
 	}
 	return true
 }
@@ -713,6 +816,8 @@ func obsSig(err error) string {
 	switch {
 	case strings.HasPrefix(s, "hang:"):
 		return "hang/async-batch"
+	case strings.HasPrefix(s, "fault-hang:"):
+		return "hang/run-time-fault"
 	case strings.Contains(s, "twice"):
 		return "api/listed-twice"
 	case strings.Contains(s, "disagree"), strings.Contains(s, "listed but"), strings.Contains(s, "but the list does not"):
@@ -833,6 +938,11 @@ var assumptions = []string{
 	"start classes on a server without InfluxDB cluster: stream tasks always start; a batch task querying a db.rp it has no dbrp for is refused by StartBatching (enabled, not executing, error recorded); a batch task with a grant starts and dies by itself - the check waits (bound 60 s, normal < 1 ms) until its error is recorded before it compares",
 	"dbrps of a task whose template moved from a script with a dbrp statement to one without are not documented: the observed value is adopted",
 	"scripts are compared raw (script-format=raw); the script in create/update responses is compared with tick.Format of the accepted script",
+	"run-time faults: points are written through POST /kapacitor/v1/write?db=&rp= (client/API.md 'Writing Data'); writing data is not a definition request, so the catalogue (tasks with script, dbrps, vars, status, template id; templates; associations) must be what it was - in particular the API keeps showing the last accepted definition of a task whose execution the data brings to an end (property statement)",
+	"taken from code (combine.go, combination.Do): a combine(lambda: TRUE, lambda: TRUE).max(1) node given 3 or more points of one time answers the next later point with the error 'refusing to perform combination ...' and a node error ends the execution of the task (node.go / task.go; the doc comment of CombineNode.Max says the error is logged); 1 or 2 points are processed. The check uses this only to inject the fault: it waits (bound 60 s, normal some ms) until the task is shown not executing with an error recorded, signature hang/run-time-fault otherwise",
+	"taken from code and client/API.md: which executions a feed reaches is decided by the definition a task was STARTED with ('When patching a task, no changes are made to the running task'): its dbrps at that time and the measurement of its from() node (pipeline/stream.go: from().measurement selects by measurement); a feed is fatal only for executions of the three 'fragile' scripts of the alphabet on the written db.rp, every other execution goes on",
+	"an execution that ended with a run-time error: the task stays enabled, is not executing and shows the error ('error: Any error encountered when executing the task', client/API.md; services/task_store startTask: the waiting goroutine stops the task and saves the error) until it is started again by enable after disable, a rename, an accepted template update, a rolled back template update that reloads it, or a restart of the server (property: after a restart every enabled task is executing again)",
+	"white-box synchronisation of a feed: the write request is answered before TaskMaster has distributed the points (one forking goroutine, first-in first-out), so the harness registers a fork of its own (TaskMaster.NewFork/DelFork, name 'verif-c14-sync', measurement 'c14sync' on the written db.rp), ends the request with one point of that measurement and waits for it before the next request of the history is sent; no task of the alphabet selects that measurement",
 }
 
 func TestCatalogue(t *testing.T) {
